@@ -637,6 +637,7 @@ class KlongInterpreter():
 
         ctx = {} if f_args is None else {reserved_fn_symbol_map[p]: self.call(q) for p,q in zip(reserved_fn_args,f_args)}
 
+        body = f
         if is_list(f) and len(f) > 1 and is_list(f[0]) and len(f[0]) > 0:
             # Filter out semicolons and check if ALL remaining elements are symbols.
             # A mixed list like [a 1] is a normal array literal, not a local declaration.
@@ -648,13 +649,14 @@ class KlongInterpreter():
                     # Don't overwrite function parameters (x, y, z)
                     if q not in ctx:
                         ctx[q] = q
-                f = f[1:]
+                body = f[1:]
 
+        # .f is the whole function, including its declaration of locals: a recursive call gets locals of its own
         ctx[reserved_dot_f_symbol] = f
 
         self._context.push(ctx)
         try:
-            return f(self, self._context) if issubclass(type(f), KGLambda) else self.call(f)
+            return f(self, self._context) if issubclass(type(f), KGLambda) else self.call(body)
         finally:
             self._context.pop()
 
